@@ -213,6 +213,16 @@ def store_programs():
     }
     for k, body in CHAIN.items():
         yield ("chained", k), body
+    # augmented assignment to obj[NAME] where NAME is a captured variable / a parameter shared with a nested def / a class member
+    # (the index is a name of the defining scope like any other expression)
+    AUGIDX = {
+        "closure-index": "def outer(key):\n    d = {'a': 1, 'b': 5}\n    def bump():\n        d[key] += 5\n        d[key] *= 2\n    bump()\n    return d\nprint(outer('a'), outer('b'))\n",
+        "shared-local-index": "def f(ws):\n    tot = [0, 0, 0]\n    for w in ws:\n        def peek():\n            return w\n        tot[w] += peek() + 1\n        tot[w] <<= 1\n    return tot\nprint(f([0, 2, 2]))\n",
+        "class-member-index": "class K:\n    slot = 1\n    cells = [10, 20, 30]\n    cells[slot] -= 5\n    cells[slot] //= 2\nprint(K.cells)\n",
+        "shadowed-global-index": "i = 2\ndef g(i):\n    xs = [10, 20, 30]\n    def h():\n        xs[i] += 60\n        return i\n    h()\n    return xs\nprint(g(0), i)\n",
+    }
+    for k, body in AUGIDX.items():
+        yield ("aug-name-index", k), body
     for k, body in SIM.items():
         yield ("simultaneous", k), body
         ind = "\n".join("    " + l for l in body.strip().split("\n"))
